@@ -35,8 +35,8 @@ EPS = [0.2, 0.0, 1.0]
 TEMP = [0.0, 1.0]
 INITQ = ['zero', 'one', 'callable']
 EPISODES = [2, 1, 3]
-SLAB = ['int', 'rev', 'str', 'mix', 'tup', 'fd']
-ALAB = ['ab', 'rev', 'ab', 'mix', 'rev', 'fd']
+SLAB = ['int', 'rev', 'str', 'mix', 'tup', 'fd', 'falsy']
+ALAB = ['ab', 'rev', 'ab', 'mix', 'rev', 'fd', 'falsy']
 
 
 def bounds(tier):
@@ -66,7 +66,7 @@ def items(tier, seed):
         for j in range(k):
             x = i * k + j + seed
             cfgs.append((x % 3, (x // 3 + j) % 3, (x // 2) % 2, (x // 5 + j) % 3, (x // 7) % 3))
-        yield (it, (i + seed) % 6, tuple(sorted(set(cfgs))))
+        yield (it, (i + seed) % len(SLAB), tuple(sorted(set(cfgs))))
 
 
 def eps_softmax(avals, eps, temp):
